@@ -16,6 +16,15 @@ RULE = (
     "reads, no shared tasks. distinct = structural hash of the program; non-trivial = at "
     "least 2 task instances and at least 1 batch flush."
 )
+RULE += (
+    " Structured families mixed in: diamonds; 'revisit' programs (a task awaited by two parents - itself or "
+    "through a child that waits for the item - is found waiting, a sibling flushes that batch by hand with "
+    "item.value(), the second parent reaches it in the same traversal); 'recatch' programs (ONE cached error "
+    "object raised by several children and caught again and again by one running body). Every fourth run under "
+    "KEEP_DEPENDENCIES; at every step and flush all pending batches are queried and must stay unchanged; "
+    "get_active_task() inside code the scheduler runs between task steps must be None or a task whose step is "
+    "on the stack."
+)
 ASSUMPTIONS = [
     "task bodies are side-effect free apart from contexts, so 'the sequential result' is well defined",
     "CPython 3.12, Cython 3.3, qcore are trusted",
